@@ -82,7 +82,7 @@ CHECKS.append(api("C06", "exploration",
     "Real Broker, Connection, ClientBuilder/Client and every client-side type run under the deterministic executor with 2-4 clients (versions 1.14-1.20; core::channel unbounded / bounded(1,2,4,16) or the simulated pipe) whose application tasks interpret random closed programs over the public API, with calls dropped or cancelled mid-flight, establish cancelled, spurious polls and Pending-injecting transports. Oracle: no Client::run returns UnexpectedMessageReceived (or any error), no poll of repository code panics (debug assertions on) or fails to return, at the first quiescence no task is blocked in an operation whose peer has acted (lost wake-up / deadlock), awaited calls return the value computed for that call, channel sessions deliver the produced sequence, an introspection query returns exactly the registered description whenever the type is registered locally or by a client connected throughout, every task has completed after all clients shut down and shutdown_idle makes Broker::run return; the broker model runs in lock step.",
     "DESIGN.md section 5 C06", SIM.replace("broker/connection", "broker/connection/client") + "quiescence-based liveness oracle, result consistency checks"))
 CHECKS.append(api("C15", "fault_enumeration",
-    "The C06 programs plus one termination of a victim client per run: transport error or EOF at transport-operation index k (k a per-run fraction of the victim's operation count measured in a fault-free execution of the same plan) or Handle::shutdown / all handles dropped / BrokerHandle::shutdown / shutdown_connection / broker shutdown combined with a failing send direction, applied at operation count k; 16 (quick) or 112 (thorough) (cause, k, schedule) variants per generated program. Oracle: the victim's Client::run returns Ok for clean causes and the injected transport error otherwise (Ok after a failed send-side operation, or after a receive failure that preceded the broker's Shutdown, is a violation), no task of the victim is still blocked once run() has returned, nothing panics, every task has completed at the end, Connection::run returned and the broker model holds nothing of the victim, other clients finish.",
+    "The C06 programs plus one termination of a victim client per run: transport error or EOF at transport-operation index k (k a per-run fraction of the victim's operation count measured in a fault-free execution of the same plan) or Handle::shutdown / all handles dropped / BrokerHandle::shutdown / shutdown_connection / broker shutdown combined with a failing send direction / broker shutdown crossing the victim's own shutdown request, applied at operation count k; 18 (quick) or 126 (thorough) (cause, k, schedule) variants per generated program. Oracle: the victim's Client::run returns Ok for clean causes and the injected transport error otherwise (Ok after a failed send-side operation, or after a receive failure that preceded the broker's Shutdown, is a violation), no task of the victim is still blocked once run() has returned, nothing panics, every task has completed at the end, Connection::run returned and the broker model holds nothing of the victim, other clients finish.",
     "DESIGN.md section 5 C15", SIM.replace("broker/connection", "broker/connection/client") + "fault points placed relative to a fault-free dry run of the same plan"))
 CHECKS.append(api("C19", "exploration",
     "Mutator tasks create/destroy objects and services over 3x3 UUID pools (re-creation under the same UUID, partial service sets, services before/after discoverer start) while observers run discoverers with 1-3 entries of all four kinds, restart them, drain events at random rates, use find_object / wait_for_object and lifetime scopes. At quiescence every non-current-only discoverer entry must report exactly the matching objects of the broker model with current cookies and service ids, its event stream (cut at restarts) alternates created/destroyed per object over incarnations that existed and adds up to the reported state; a Lifetime has resolved iff its scope object is gone and never resolved earlier; find/wait results existed within the call window.",
